@@ -36,15 +36,16 @@ Exch ==
           <<All(Ev.seen, LAMBDA s : s.clEq), "C06.TrueLengthDeclared">>,
           <<All(Ev.seen, LAMBDA s : s.teEmpty), "C06.NoChunkedEncoding">>,
           <<All(Ev.seen, LAMBDA s : s.bodyEq), "C06.BodyCompleteFromFirstByte">>,
-          <<(~over /\ overAt) => Ev.status >= 400 /\ Ev.hbytes = 0, "C15.ResponseOverLimitReplaced">>,
+          <<(~over /\ overAt /\ ~Ev.scriptpanic) => Ev.status >= 400, "C15.ResponseOverLimitReplaced">>,
+          <<(~over /\ overAt) => Ev.hbytes = 0, "C15.ResponseOverLimitReplaced">>,
           <<Ev.files = 0, "C15.NoTempFiles">>,
           \* (a spilled REQUEST body cannot be seen in the directory: the library unlinks that file as soon as it is created)
           <<cfg.memResp >= 0 =>
                All(Ev.seen, LAMBDA s : LET w == SumSeq(Sc(scripts, s.k).writes) IN
                                        (w > cfg.memResp /\ (cfg.maxResp < 0 \/ w <= cfg.maxResp)) => s.afterFiles >= s.entryFiles + 1),
             "C15.BeyondThresholdSpilled">>,
-          <<~Ev.panicked, "C07.ExactlyOneResponse">>,
-          <<(~over /\ ~overBefore /\ w0 = w2) => inv = w0, "C07.InvocationCount">>,
+          <<Ev.panicked => Ev.scriptpanic, "C07.ExactlyOneResponse">>,      \* only a handler that aborts itself may abort the exchange
+          <<(~over /\ ~overBefore /\ w0 = w2 /\ ~Ev.scriptpanic) => inv = w0, "C07.InvocationCount">>,
           <<inv <= MaxAttempts + 1, "C07.AtMostElevenInvocations">>,
           <<(~over /\ ~overAt /\ ~Ev.panicked) =>
                 /\ Ev.from = inv /\ ~Ev.foreign
@@ -52,7 +53,7 @@ Exch ==
           <<(~over /\ ~overAt /\ ~Ev.panicked /\ final.status = 0) => Ev.status = 200, "C07.ImplicitStatusIs200">>,
           <<(~over /\ ~overAt /\ ~Ev.panicked /\ ExpectBody(req, final)) =>
                 Ev.body = SumSeq(final.writes) /\ Ev.bodyok, "C07.FinalBodyDelivered">> >>)
-     /\ drift' = IF m.inv = inv /\ (m.status = Ev.status \/ Ev.panicked) THEN drift ELSE Report(drift, scn, l, "buffer.ServeHTTP")
+     /\ drift' = IF Ev.scriptpanic \/ (m.inv = inv /\ (m.status = Ev.status \/ Ev.panicked)) THEN drift ELSE Report(drift, scn, l, "buffer.ServeHTTP")
   /\ UNCHANGED <<scn, cfg>> /\ nev' = nev + 1
 
 End == /\ IsEvent("End")
